@@ -16,7 +16,7 @@ def gen_stream_workload(r, max_values=4, small=False, force_codec=None, allow_f2
     codec = force_codec or r.choice(CODEC_CHOICES)
     cfg = U.GenCfg()
     cfg.max_depth = r.choice([1, 2, 3, 3]) if not small else r.choice([1, 2])
-    cfg.max_fields = r.choice([2, 3, 5]) if not small else 3
+    cfg.max_fields = r.choice([2, 3, 5, 5, 9]) if not small else r.choice([3, 3, 3, 9])
     prims = list(U.PRIMS)
     if 'chunk' in codec:
         # chunked character/time strings: unbounded encoder recursion and undecodable
